@@ -241,6 +241,10 @@ type commitmentsVerificationState struct {
 	previousPhaseSharesMessages      []*PeerSharesMessage
 	previousPhaseCommitmentsMessages []*MemberCommitmentsMessage
 
+	// Members operating before the shares and commitments were verified by
+	// the current member. Accusations are accepted from all of them.
+	accusers []group.MemberIndex
+
 	phaseAccusationsMessages []*SecretSharesAccusationsMessage
 }
 
@@ -257,6 +261,7 @@ func (cvs *commitmentsVerificationState) Initiate(ctx context.Context) error {
 		cvs.previousPhaseSharesMessages,
 		cvs.previousPhaseCommitmentsMessages,
 	)
+	cvs.accusers = cvs.member.group.OperatingMemberIndexes()
 	accusationsMsg, err := cvs.member.VerifyReceivedSharesAndCommitmentsMessages(
 		cvs.previousPhaseSharesMessages,
 		cvs.previousPhaseCommitmentsMessages,
@@ -275,9 +280,10 @@ func (cvs *commitmentsVerificationState) Initiate(ctx context.Context) error {
 func (cvs *commitmentsVerificationState) Receive(msg net.Message) error {
 	switch phaseMessage := msg.Payload().(type) {
 	case *SecretSharesAccusationsMessage:
-		if cvs.member.shouldAcceptMessage(
+		if cvs.member.shouldAcceptAccusationMessage(
 			phaseMessage.SenderID(),
 			msg.SenderPublicKey(),
+			cvs.accusers,
 		) && cvs.member.sessionID == phaseMessage.sessionID {
 			cvs.phaseAccusationsMessages = append(
 				cvs.phaseAccusationsMessages,
@@ -458,6 +464,10 @@ type pointsValidationState struct {
 
 	previousPhaseMessages []*MemberPublicKeySharePointsMessage
 
+	// Members operating before the public key share points were verified by
+	// the current member. Accusations are accepted from all of them.
+	accusers []group.MemberIndex
+
 	phaseMessages []*PointsAccusationsMessage
 }
 
@@ -471,6 +481,7 @@ func (pvs *pointsValidationState) ActiveBlocks() uint64 {
 
 func (pvs *pointsValidationState) Initiate(ctx context.Context) error {
 	pvs.member.MarkInactiveMembers(pvs.previousPhaseMessages)
+	pvs.accusers = pvs.member.group.OperatingMemberIndexes()
 	accusationMsg, err := pvs.member.VerifyPublicKeySharePoints(
 		pvs.previousPhaseMessages,
 	)
@@ -488,9 +499,10 @@ func (pvs *pointsValidationState) Initiate(ctx context.Context) error {
 func (pvs *pointsValidationState) Receive(msg net.Message) error {
 	switch phaseMessage := msg.Payload().(type) {
 	case *PointsAccusationsMessage:
-		if pvs.member.shouldAcceptMessage(
+		if pvs.member.shouldAcceptAccusationMessage(
 			phaseMessage.SenderID(),
 			msg.SenderPublicKey(),
+			pvs.accusers,
 		) && pvs.member.sessionID == phaseMessage.sessionID {
 			pvs.phaseMessages = append(pvs.phaseMessages, phaseMessage)
 		}
